@@ -140,7 +140,7 @@ def time_grid(ctx, case):
     tw = tweak(seed)
     pre = preimages(seed)
     n = 0
-    for timeout in (0, 1, 86400):
+    for timeout in (0, 1, 86400, -1, -86400):
         lock = build_lock(kind, pk, pre['right'], timeout, tw=tw)
         deadline = T0 + timeout
         if kind.startswith('htlc'):
@@ -382,7 +382,7 @@ def blocks(tier, seed):
               '(creation time, timeout) decompositions x path x t=deadline-1..+1', nshards=min(len(dw), 64)),
         Block('custom_slack_threshold', [(k, thr) for k in KINDS for thr in (10, 61, 600, 0, -1)], threshold_case,
               'lock kind x verifier ts_threshold {10, 61, 600, 0, -1} x path x t=deadline-1..+1 x t-now around the threshold', nshards=30),
-        Block('time_grid', tg, time_grid, 'lock kind x signer x preimage choice x timeout {0,1,86400} x t=deadline-1..+1 x t-now=59..61', nshards=len(tg)),
+        Block('time_grid', tg, time_grid, 'lock kind x signer x preimage choice x timeout {0,1,86400,-1,-86400} x t=deadline-1..+1 x t-now=59..61', nshards=len(tg)),
         Block('preimage_lengths', pl, preimage_lengths, 'preimage lengths %s x right/wrong x signer; SHAKE digest sizes 1,16,20,32,64' %
               ('1..64'), nshards=min(len(pl), 128)),
         Block('ptlc_tweak_scalars', tweak_scalars(seed), ptlc_tweaks, 'tweak scalars {1, L-1, clamped, unclamped, 2^254+} x witness kinds x signers', nshards=5),
@@ -397,6 +397,6 @@ def meta(tier, seed):
         rule='complete grids executed through the real builders and run_auth_scripts; virtual clock = T0 at build time (deadline = T0 + '
              'timeout) and moved before the run; model from the statement + ref.refvm on the same bytes',
         states_meaning='distinct grid points; transitions = scripts run',
-        bounds={'preimage_lengths': '1..64', 'timeouts': [0, 1, 86400], 'deadline_widths': '2^b + {-1,0,1}, b in 7,8,15,16,...,62,63,64', 'slack_threshold': THR},
+        bounds={'preimage_lengths': '1..64', 'timeouts': [0, 1, 86400, -1, -86400], 'deadline_widths': '2^b + {-1,0,1}, b in 7,8,15,16,...,62,63,64', 'slack_threshold': THR},
         assumptions=['tweak scalars are valid 255-bit scalars (bit 255 clear)', 'hash preimage resistance / Ed25519 hardness for rejections'],
     )
